@@ -1,15 +1,15 @@
 (* Corr/C01.v — what the c01 case files call.  One case = one HTTP request sent to the real
    provider (fresh provider, fresh seeded storage), abstracted to the record Authn.v computes on,
    plus what was observed. *)
-From Verif Require Import Base Scope Types Prog Pop Token Authorize Authn AuthnSpec AuthnLink.
+From Verif Require Import Base Scope Types Prog Pop Token Authorize Authn AuthnSpec AuthnLink AuthnWire.
 Local Open Scope N_scope.
 
 Record acase := mkACase {
   k_cfg : acfg;
   k_entry : entry;
   k_clients : list aclient;      (* static clients first, then the stored ones *)
-  k_req : request;
-  k_anon : bool;                 (* jwt-bearer grant and the embedder allows anonymous use *)
+  k_req : wreq;                  (* the request as sent: every form-carried member with its placement (body / query string) *)
+  k_anon : bool;                 (* jwt-bearer grant and the embedder allows anonymous use (client authentication not required) *)
   (* observed on the implementation *)
   k_accepted : bool;             (* served: success answer carrying the endpoint's artifact *)
   k_invalid_client : bool;       (* refused with error = invalid_client *)
@@ -19,12 +19,14 @@ Record acase := mkACase {
 }.
 
 (* correspondence: 0 = the model and the implementation agree; 1 = accept/refuse differs;
-   2 = they differ on whether the jwks_uri is fetched *)
+   2 = they differ on whether the jwks_uri is fetched.  The model's verdict is entry_outcome
+   (Model/AuthnWire.v): clientutil.Authenticated on what the code reads off the wire request (form
+   members from the BODY only), and the jwt-bearer grant's anonymous path only when nothing in the
+   request names a client and authentication is not required. *)
 Definition check_acase (k : acase) : N :=
-  let r := authenticated_full (k_cfg k) (entry_ctx (k_entry k)) (k_clients k) (k_req k) in
-  let accept := match ar_client r with Some _ => true | None => andb (k_anon k) (negb (ar_identified r)) end in
-  if negb (Bool.eqb accept (k_accepted k)) then 1
-  else if negb (Bool.eqb (ar_fetched r) (k_fetched k)) then 2 else 0.
+  let '(o, fetched) := entry_outcome (k_cfg k) (k_entry k) (negb (k_anon k)) (k_clients k) (k_req k) in
+  if negb (Bool.eqb (served o) (k_accepted k)) then 1
+  else if negb (Bool.eqb fetched (k_fetched k)) then 2 else 0.
 
 (* ---- the property's monitor, evaluated on the observation, through the specification only ---- *)
 Definition registered_b (cls : list aclient) (c : aclient) : bool :=
@@ -48,23 +50,19 @@ Definition unambiguous_b (c : aclient) (rq : request) : bool :=
            (match rq_cert rq with Some ct => Nat.leb (count (fun j => N.eqb (jk_cert j) (ct_id ct)) ks) 1 | None => true end)
   end.
 
-Definition names_nobody (rq : request) : bool :=
-  andb (N.eqb (rq_form_id rq) 0)
- (andb (match rq_basic rq with Some (b, _) => N.eqb b 0 | None => true end)
-       (match rq_assertion rq with ANone => true | _ => false end)).
-
 (* clause 1: served without a valid credential of the registered method (the one exception: the
              jwt-bearer grant, anonymous use allowed, no client identification at all)
    clause 2: a genuinely valid credential of the registered method was refused
    clause 3: refused, but not with invalid_client, or with an artifact, or after a storage write *)
 Definition mon_acase (k : acase) : N :=
-  let g := k_cfg k in let x := entry_ctx (k_entry k) in let rq := k_req k in
+  (* the specification is evaluated on what the request carries in the places credentials must be in *)
+  let g := k_cfg k in let x := entry_ctx (k_entry k) in let rq := body_view (k_req k) in
   let cands := firsts [] (k_clients k) in
   let valid := existsb (fun c => andb (negb (N.eqb (ca_id c) 0)) (valid_credential_b g x c rq)) cands in
   let valid_unamb := existsb (fun c => andb (negb (N.eqb (ca_id c) 0))
                                         (andb (valid_credential_b g x c rq) (unambiguous_b c rq))) cands in
   if k_accepted k then
-    if orb valid (andb (k_anon k) (names_nobody rq)) then 0 else 1001
+    if orb valid (andb (k_anon k) (andb (is_jwt_bearer (k_entry k)) (names_nobody_b (k_req k)))) then 0 else 1001
   else
     if valid_unamb then 2001 else
     if orb (k_wrote k) (orb (negb (k_invalid_client k)) (k_artifact k)) then 3001 else 0.
